@@ -11,6 +11,7 @@ package s3mem
 // (data) and, once versioning has been enabled, the archived versions in a
 // second skiplist keyed by version id.
 
+//@ option guard-triggers
 //@ pred okey(n) = iface(n, string)
 //@ pred hasObj(b, n) = sl_has(b.objects)[okey(n)]
 //@ pred objAt(b, n) = dyn(sl_val(b.objects)[okey(n)], *bucketObject)
@@ -25,7 +26,7 @@ package s3mem
 //@         dyn(sl_val(o.versions)[k], *bucketData).versionID == dyn(k, gofakes3.VersionID))))
 // Ownership: an object's version list is its own — it is not the bucket's index
 // and not the version list of another object (lists are created by put and never shared).
-//@ pred bucketInvA(b) = b != nil && b.objects != nil &&
+//@ pred bucketInvA(b) = b != nil && allocated(b.objects) &&
 //@     allif(k, imp(sl_has(b.objects)[k], typeis(k, string) && typeis(sl_val(b.objects)[k], *bucketObject) &&
 //@         objInv(dyn(sl_val(b.objects)[k], *bucketObject), dyn(k, string)) &&
 //@         dyn(sl_val(b.objects)[k], *bucketObject).versions != b.objects))
@@ -254,7 +255,7 @@ package s3mem
 //@ let B = bkt(db, bucketName)
 //@ requires          inv:    dbInv(db) && db.lock == 0
 //@ requires [C08,C12] size:  size >= 0 && input != nil && meta != nil
-//@ ensures [C08,C12] reject: imp(err != nil, unchanged())
+//@ ensures [C08,C12] reject: imp(err != nil, unchanged(meta))
 //@ ensures [C02]     nobucket: imp(!old(hasBucket(db, bucketName)), err != nil)
 //@ ensures [C02,C01] stored: imp(err == nil, hasBucket(db, bucketName) && B == old(B) && hasObj(B, objectName) &&
 //@                             objAt(B, objectName).data != nil && objAt(B, objectName).data.name == objectName &&
